@@ -204,6 +204,11 @@ func (h *Handle) qid() p9p.Qid {
 	q := p9p.Qid{Path: uint64(h.ID), Version: uint32(h.ID) * 3}
 	if h.IsDir {
 		q.Type = p9p.QTDIR
+		if h.ID%3 == 0 {
+			q.Type |= p9p.QTTMP // a directory is whatever carries the QTDIR bit: other bits may be set too
+		}
+	} else if h.ID%3 == 0 {
+		q.Type = p9p.QTAPPEND
 	}
 	return q
 }
